@@ -50,6 +50,8 @@ function main() -> void { A a = new A(); echo(a.f(1)); echo(a.f(2L)); echo(a.f(1
 
 # qubits declared after gates have already run (late locals, a helper's local, an object created mid-run), so that what one execution
 # leaves in the simulator's buffers differs from the all-zero start
+PROGRAMS["echo-operand-effects"] = """static class S { public static int n = 0; public static function bump() -> int { S.n = S.n + 1; return S.n; } }
+function main() -> void { @tracked qubit q; x(q); echo(measure q); echo(S.bump()); qubit t; if (S.n == 1) { x(t); } bit r = measure t; }"""
 PROGRAMS["late-allocation"] = """function main() -> void { @tracked qubit a; x(a); @tracked qubit b; x(a); echo(measure a); echo(measure b); }"""
 PROGRAMS["late-allocation-helper"] = """class Q { public qubit q; public constructor() -> Q = default; }
 function probe() -> bit { qubit t; return measure t; }
@@ -136,8 +138,10 @@ def _one(name):
         fresh[sc] = obs(r.rec)
     bad = []
     for combo in itertools.product(scripts, repeat=_N):
-        for variant, extra in (("plain", {}), ("analyse-twice", {"analyse_times": 2}), ("reanalyse-between", {"reanalyse_between": 1})):
-            if variant != "plain" and combo != tuple([scripts[-1]] * _N) and combo != tuple([scripts[0]] * _N):
+        # "echo-off": multi-shot mode runs the shots with echo suppressed; suppressing the OUTPUT must not suppress what the operand does
+        # (a measurement, a call that bumps a static): everything but stdout still equals the fresh, echoing run (seed C18-6)
+        for variant, extra in (("plain", {}), ("echo-off", {"echo": 0}), ("analyse-twice", {"analyse_times": 2}), ("reanalyse-between", {"reanalyse_between": 1})):
+            if variant not in ("plain", "echo-off") and combo != tuple([scripts[-1]] * _N) and combo != tuple([scripts[0]] * _N):
                 continue
             r = vdrv.run_job({"id": "s", "kind": "run", "opts": dict({"shots": _N, "gc": "own", "warn": 0, "want": "tracked,qasm,amps", "draws": "/".join(",".join(map(str, sc)) for sc in combo)}, **extra),
                               "blobs": {"src": src}})
@@ -147,6 +151,13 @@ def _one(name):
                 bad.append((combo, "%s: the interpreter died during shot %d of %d: %s %s" % (variant, len(recs), _N, r.crash, r["fd2"][:300])))
                 continue
             for i, (sc, rec) in enumerate(zip(combo, recs)):
+                if variant == "echo-off":
+                    o, f = obs(rec), fresh[sc]
+                    if o[0] == f[0] == "ok" and (o[0],) + o[2:] != (f[0],) + f[2:]:
+                        bad.append((combo, "echo-off: shot %d (draw script %s) of a %d-shot run with echo suppressed differs from a fresh echoing run with the same script in %s" % (
+                            i, list(sc), _N, diff_of((o[0], f[1]) + o[2:], f))))
+                        break
+                    continue
                 if obs(rec) != fresh[sc]:
                     bad.append((combo, "%s: shot %d (draw script %s) of a %d-shot run on one AST differs from a fresh parse-analyse-run with the same script in %s" % (variant, i, list(sc), _N, diff_of(obs(rec), fresh[sc]))))
                     break
